@@ -22,6 +22,8 @@ def open_unit(uid, at, keyed, opts_expr, algo_expr, size_expr):
     P(f'      && !exists_at(old(w).fs, r->Ok_0.writer.tmpfile@)')
     P(f'  ensures [C03+C14+C15.{uid.split("::",1)[1]}.only_tmp_area]')
     P('    only_under(*old(w), *final(w), tmp_dir(cache@)) && world_wf(*final(w))')
+    P(f'  ensures [C15.{uid.split("::",1)[1]}.dirs]')
+    P('    forall|d: PathV| #[trigger] final(w).fs.dirs.contains(d) && !old(w).fs.dirs.contains(d) ==> under(tmp_dir(cache@), d)')
     P(f'  ensures [C13.{uid.split("::",1)[1]}.err_kind]')
     P('    r is Err ==> r->Err_0 is IoError')
     P(f'  ensures [C02.{uid.split("::",1)[1]}.complete]')
@@ -42,3 +44,59 @@ open_unit('put::SyncWriter::create_with_algo', 'impl:SyncWriter/create_with_algo
 
 open(os.path.join(HERE, 'put_gen.vc'), 'w').write('\n'.join(out) + '\n')
 print('wrote put_gen.vc')
+
+# ---- one-shot writers --------------------------------------------------------------------
+out = []
+P = out.append
+def oneshot(uid, at, keyed, algo):
+    n = uid.split('::', 1)[1]
+    BP = 'bucket_path_spec(cache@, key@)'
+    G = f'!old(w).fs.links.contains_key({BP})' if keyed else 'true'
+    D = f'digest_of({algo}, data@)'
+    CP = f'content_path_spec(cache@, {D})'
+    P(f'unit {uid}')
+    P('  file put.rs')
+    P(f'  at {at}')
+    P('  world mut')
+    P('  ret r')
+    P('  props C02 C03 C04 C11 C13 C14 C15 C16 C20')
+    P('  requires')
+    P('    world_wf(*old(w))')
+    P(f'  ensures [C02+C16.{n}.returns_the_true_digest]')
+    P(f'    r is Ok ==> r->Ok_0@ == {D}')
+    P(f'  ensures [C03.{n}.content_ok_in_every_state]')
+    P(f'    content_ok(old(w).fs, cache@) && {G} ==> content_ok(final(w).fs, cache@)')
+    P(f'      && forall|i: int| old(w).hist.len() <= i < final(w).hist.len() ==> content_ok(#[trigger] final(w).hist[i], cache@)')
+    P(f'  ensures [C15.{n}.nothing_outside_the_cache]')
+    P(f'    {G} ==> files_same_outside(old(w).fs, final(w).fs, cache@)')
+    P(f'      && forall|i: int| old(w).hist.len() <= i < final(w).hist.len() ==> files_same_outside(old(w).fs, #[trigger] final(w).hist[i], cache@)')
+    P(f'  ensures [C02+C13.{n}.ok_means_content_stored]')
+    P(f'    r is Ok && {G} ==> readable(final(w).fs, {CP}) || final(w).fs.dirs.contains(resolve(final(w).fs, {CP}))')
+    P(f'  ensures [C02.{n}.healthy_stores_exact_bytes]')
+    P(f'    old(w).healthy && r is Ok && {G} && !old(w).fs.dirs.contains({CP}) ==> final(w).fs.files.contains_key({CP}) && final(w).fs.files[{CP}] == data@ && !final(w).fs.links.contains_key({CP})')
+    if keyed:
+        P(f'  ensures [C02+C04+C11.{n}.ok_appends_the_record]')
+        P(f'    r is Ok && {G} ==> exists|m: crate::index::MetaV| #![trigger crate::index::json_of_v(m)]')
+        P(f'        m.key == key@ && m.integrity == Some(sri_string({D})) && m.size == data@.len() && crate::index::is_clock_millis(m.time)')
+        P(f'        && m.metadata == crate::shims::serde_json::Value::Null && m.raw_metadata is None')
+        P(f'        && final(w).fs.files.contains_key({BP})')
+        P(f'        && final(w).fs.files[{BP}] == crate::index::bucket_bytes(old(w).fs, {BP}) + record_bytes(crate::index::json_of_v(m))')
+    else:
+        P(f'  ensures [C14.{n}.index_untouched]')
+        P(f'    same_under(old(w).fs, final(w).fs, index_dir(cache@))')
+        P(f'      && forall|i: int| old(w).hist.len() <= i < final(w).hist.len() ==> same_under(old(w).fs, #[trigger] final(w).hist[i], index_dir(cache@))')
+    P(f'  ensures [C03.{n}.world]')
+    P('    hist_ext(*old(w), *final(w)) && world_wf(*final(w)) && final(w).healthy == old(w).healthy')
+    if at.endswith('/inner'):
+        P('  body_open')
+        P('    proof { lemma_cache_areas_disjoint(cache@); lemma_tmp_states(cache@); lemma_content_path_rel(cache@, ' + D + ');' + (' lemma_bucket_in_index(cache@, key@);' if keyed else '') + ' }')
+    P('')
+
+oneshot('put::write_sync_with_algo::inner', 'fn:write_sync_with_algo/inner', True, 'algo@')
+oneshot('put::write_sync_with_algo', 'fn:write_sync_with_algo', True, 'algo@')
+oneshot('put::write_sync', 'fn:write_sync', True, 'AlgoV::Sha256')
+oneshot('put::write_hash_sync_with_algo::inner', 'fn:write_hash_sync_with_algo/inner', False, 'algo@')
+oneshot('put::write_hash_sync_with_algo', 'fn:write_hash_sync_with_algo', False, 'algo@')
+oneshot('put::write_hash_sync', 'fn:write_hash_sync', False, 'AlgoV::Sha256')
+open(os.path.join(HERE, 'put_gen2.vc'), 'w').write('\n'.join(out) + '\n')
+print('wrote put_gen2.vc')
